@@ -147,6 +147,19 @@ def install(I, low):
     b["floor"] = I.models.froms[("math", "floor")]
     b["sqrt"] = I.models.froms[("math", "sqrt")]
 
+    def c_fmod(I2, args, kw):
+        """std::fmod over the reals (A-REAL): a - b * trunc(a / b), b != 0 - the remainder has the sign of the dividend."""
+        from pvc.models import floor_f
+
+        a, bb = to_real(args[0]), to_real(args[1])
+        q = a / bb
+        fl, fn = floor_f(q), floor_f(-q)
+        I2.path.assume(z3.And(z3.ToReal(fl) <= q, q < z3.ToReal(fl) + 1, z3.ToReal(fn) <= -q, -q < z3.ToReal(fn) + 1))
+        tr = z3.If(q >= 0, z3.ToReal(fl), -z3.ToReal(fn))
+        return SReal(a - bb * tr)
+
+    b["fmod"] = Builtin("fmod", c_fmod)
+
 
 class ImplX:
     """Opaque C++ filter implementation (Impl): arity of the calls is checked against the configuration."""
